@@ -792,7 +792,8 @@ class Datatype(Item):
         }
 
     def parse_edit(self, edit_data):
-        T = parser.parse_type(edit_data['type'])
+        # The type being defined is not in the theory yet.
+        T = parser.parse_type(edit_data['type'], check_type=False)
         constrs = []
         for constr_decl in edit_data['constrs'].split('\n'):
             constr = parser.parse_ind_constr(constr_decl)
